@@ -55,6 +55,11 @@ class Kernel:
         self.events = []         # ("fork", pid) / ("kill", pid, sig) in program order
         self.hang = {}           # spawn index -> decisecond from which that child stops heartbeating (C11)
         self.pid_plan = []       # pids handed out by the next fork() calls (pid wrap-around); then next_pid + 1, ...
+        self.deaf_first_term = False   # a freshly forked child still has the master's handlers: its first TERM is lost
+        self.termed_once = set()
+        self.pipe_pending = False      # the master's wake-up pipe (Arbiter.wakeup writes, Arbiter.sleep selects + drains)
+        self.model_pipe = False
+        self.signal_gap_ds = 0         # virtual time that passes before each scripted master signal arrives
 
     # -- helpers ------------------------------------------------------------------------------------
     def alive(self):
@@ -139,6 +144,10 @@ class Kernel:
         self.sent.append((pid, int(sig)))
         self.events.append(("kill", pid, int(sig), self.now))
         idx = self.order.index(pid)
+        if sig == signal.SIGTERM and self.deaf_first_term and pid not in self.termed_once:
+            self.termed_once.add(pid)          # delivered before the child installed its handlers: no effect
+            self._tick()
+            return
         if sig in (signal.SIGTERM, signal.SIGQUIT):
             if st == "alive" and idx not in self.stubborn:
                 self.procs[pid] = "dying"
@@ -168,9 +177,15 @@ class Kernel:
         return self.ppid
 
     def write(self, fd, data):
+        self.pipe_pending = True
         return len(data)
 
     def read(self, fd, n):
+        if self.model_pipe and self.pipe_pending:
+            self.pipe_pending = False
+            return b"."
+        if self.model_pipe:
+            raise OSError(errno.EAGAIN, "Resource temporarily unavailable")
         return b""
 
     # -- time / select --------------------------------------------------------------------------------
@@ -194,8 +209,14 @@ class Kernel:
         if self.master_signals:
             sig = self.master_signals.pop(0)
             if sig:
+                if self.signal_gap_ds:
+                    self.now += self.signal_gap_ds
+                    self._settle()
                 self.arb.signal(sig, None)
-                return ([], [], [])
+                return ((list(r) if self.model_pipe else []), [], [])
+        if self.model_pipe and self.pipe_pending:
+            self.now += 1                      # woken up at once (0.1 s): something was written to the pipe
+            return (list(r), [], [])
         self.now += int(round((timeout or 0) * 10))
         self._settle()
         return ([], [], [])
